@@ -128,6 +128,19 @@ CHECKS = {
             'all 114k sorted version histories through DiffIterator/apply_diff incl. Readers with 4 KiB parser buffers: every version once, prev/next/first/last exact.',
             'Trusted: the dispatch model. Not judged: whether removed items are visited, forwarding of osm_object/sub-item callbacks by DynamicHandler/ChainHandler.',
             'DESIGN.md section 2 C20'),
+    'C05': ('exploration', 'exactly-once/order oracle over unique (type,id,version) triples under seeded configurations and schedule perturbation at queue/pool hook points (TSan and ASan builds with small parser buffers, hook H4)',
+            'Seeded multi-block files in PBF (dense/plain), XML, OPL and o5m are read with pool sizes 1..32, work/input/osmdata queue sizes, PBF decoding in pool threads on/off, buffers_type, '
+            'all 16 entity masks, read_meta, file or memory input and fast/slow consumers, each under seeded yields/sleeps at the hook points: the delivered sequence must equal the generated '
+            'data set filtered by the mask; eof() and failure of reads after the end are asserted.',
+            'Held on the interleavings actually produced (distinct signatures are counted in the evidence). read_meta::no: metadata fields may be real or default.',
+            'DESIGN.md section 2 C05'),
+    'C07': ('fault_enumeration', 'enumerated stop points and injected faults (mock Decompressor registered via CompressionFactory, corrupted blocks, truncation) with process monitors: watchdog, read(2) log via --wrap=read, /proc task and fd baselines (ASan and TSan builds)',
+            'For every format: the consumer abandons the Reader after k reads (with/without header(), via close() or destructor); the j-th decompressor read or the close throws; the n-th PBF block '
+            'is corrupt (zlib data / protobuf), text formats are corrupt in the middle, headers corrupt, input truncated; x pool and queue sizes x seeded perturbation. Every API call must return '
+            '(bounded progress), the first error must be reported exactly by header()/read()/close(), afterwards read() throws and delivers nothing, delivered objects are a prefix located before '
+            'the fault, no Decompressor::read()/read(2) on the Reader\'s fd after close() returned, thread and fd sets back to the baseline.',
+            'Liveness decided as bounded progress (120 s watchdog + driver stall oracle). TSan reports through the exception_ptr reference count of the uninstrumented libstdc++ are suppressed (lib/tsan.supp).',
+            'DESIGN.md section 2 C07'),
 }
 
 NOT_YET = 'check not built yet (work in progress, see DESIGN.md section 6)'
